@@ -10,7 +10,7 @@
    reported per formula and line through PrintT and counted in TLC registers; the
    post-condition prints one COUNT line per formula (exercised / failed) and fails
    if the whole trace was not consumed. *)
-EXTENDS Props, Chain, Json
+EXTENDS Ghost, Chain, Json
 
 CONSTANTS TraceFile, CheckConformance
 
@@ -21,103 +21,7 @@ vars == <<l, gh>>
 
 X(i) == [pre |-> Trace[i - 1].post, ev |-> Trace[i].ev, out |-> Trace[i].out, post |-> Trace[i].post]
 
-GhostInit(g) ==
-    [supply0 |-> g.post.supply, reward0 |-> g.post.pool.reward, claimable0 |-> ClaimableMilli(g.post),
-     claimedNode |-> 0, dustq |-> 0, dustr |-> 0, cfg |-> g.cfg, start |-> TRUE,
-     earn |-> [i \in 1..Len(g.post.workers) |->
-                 LET w == g.post.workers[i]  m == MuAdd(MuOf(w.rew), MuOf(w.income * (g.post.h - w.last)))
-                 IN [a |-> w.a, q |-> m.q, r |-> m.r, cq |-> 0]]]
-
-OrderDust(o) == o.amount * Mega - o.size * o.replica * o.dur
-GhostStep(g, x) ==
-    LET nd == MuSumSeq(SelectSeq(NewOrders(x), LAMBDA o : o.replica > 0), LAMBDA o : Max2(0, OrderDust(o)))
-        wd == Len(SelectSeq(GoneOrders(x), LAMBDA o : o.status = OCompleted))
-              + Len(SelectSeq(x.pre.orders, LAMBDA o : HasOrder(x.post, o.id) /\ (OrderOf(x.post, o.id).amount < o.amount \/ OrderOf(x.post, o.id).replica < o.replica)))
-        d2 == MuAdd([q |-> g.dustq, r |-> g.dustr], MuAdd(nd, [q |-> wd, r |-> 0]))
-        \* bytes x blocks stored during this step, per provider (only block steps let time pass)
-        earnAdd(acc, sh) ==
-            LET e == EarnOf([earn |-> acc], sh.sp)
-                blocks == Max2(0, Min2(ShardPaidEnd(sh), x.post.h) - x.pre.h)
-                m == MuAdd([q |-> e.q, r |-> e.r], MuOf(sh.size * blocks))
-            IN Put(acc, "a", [e EXCEPT !.q = m.q, !.r = m.r])
-        earn1 == IF Kind(x) = "Blocks" THEN FoldLeft(earnAdd, g.earn, CompletedShards(x.pre)) ELSE g.earn
-        earn2 == IF Kind(x) = "Claim" /\ Ok(x)
-                 THEN LET e == EarnOf([earn |-> earn1], x.ev.creator) IN Put(earn1, "a", [e EXCEPT !.cq = @ - Delta(x, "m_market")])
-                 ELSE earn1
-    IN [g EXCEPT !.earn = earn2, !.claimedNode = @ + (IF Kind(x) = "Claim" /\ Ok(x) THEN -Delta(x, "m_node") ELSE 0),
-                 !.dustq = d2.q, !.dustr = d2.r, !.start = FALSE]
-
-\* ---------------------------------------------------------------------------
-Names == <<
-  "C02_NoHalt",
-  "C04_ChargeExact", "C04_ClientEscrowClosed", "C04_RefundToPayerOnly", "C04_OrderEscrowExact", "C04_NoStuckPayment", "C04_IncomeIsBytesBlocks",
-  "C05_FullRefund", "C05_CleanRollback", "C05_TimeoutRefund", "C05_TimeoutRollback",
-  "C06_OrderEscrow", "C06_MarketEscrow", "C06_NodeEscrow", "C06_DidEscrow", "C06_EntitledNeverFails",
-  "C07_UsedWithinCap", "C07_ProviderEscrowClosed", "C07_PledgeBackToPledger",
-  "C08_MintedEqualsCounter", "C08_ClaimsWithinMinted", "C08_MintOnlyInBlocks", "C08_MintBound", "C08_ClaimExact",
-  "C09_ModelChangeAuthorised",
-  "C10_CompleteByAssignee", "C10_NodeSelfOnly", "C10_CancelByCreator", "C10_PayerConsent",
-  "C11_KeptWhilePaid", "C11_ReleasedAtEnd", "C11_ModelOutlivesShards", "C11_NothingOverdue",
-  "C12_Rescheduled", "C12_StoredOrderUntouched", "C12_ResolvedByBound",
-  "C13_OrderShardsExist", "C13_ShardListedByItsOrder", "C13_CompletedShardScheduled", "C13_AliasBijection",
-  "C14_UsedIsSum", "C14_WorkerIsSum", "C14_ShardPledgedIsSum", "C14_PoolIsSum",
-  "C15_Placement",
-  "C16_IdsFresh", "C16_OneInFlight", "C16_BaseIsLatest", "C16_HistoryChain" >>
-
 Bump(i) == TLCSet(i, TLCGet(i) + 1)
-V(app, ok) == [app |-> app, ok |-> ~app \/ ok]
-
-Verdict(name, x, g) ==
-  LET s == x.post IN
-  CASE name = "C02_NoHalt"               -> V(TRUE, C02_NoHalt(x))
-    [] name = "C04_ChargeExact"          -> V(C04_ChargeExact_app(x), C04_ChargeExact(x))
-    [] name = "C04_ClientEscrowClosed"   -> V(Closure_app(x), C04_ClientEscrowClosed(x))
-    [] name = "C04_RefundToPayerOnly"    -> V(C04_RefundToPayerOnly_app(x), C04_RefundToPayerOnly(x))
-    [] name = "C04_OrderEscrowExact"     -> V(TRUE, C04_OrderEscrowExact(s))
-    [] name = "C04_NoStuckPayment"       -> V(TRUE, C04_NoStuckPayment(s, g))
-    [] name = "C04_IncomeIsBytesBlocks"  -> V(x.out.result = "ok" \/ IsTx(x), C04_IncomeIsBytesBlocks(s, g))
-    [] name = "C05_FullRefund"           -> V(C05_app(x), C05_FullRefund(x))
-    [] name = "C05_CleanRollback"        -> V(C05_app(x), C05_CleanRollback(x))
-    [] name = "C05_TimeoutRefund"        -> V(C05_Timeout_app(x), C05_TimeoutRefund(x))
-    [] name = "C05_TimeoutRollback"      -> V(C05_Timeout_app(x), C05_TimeoutRollback(x))
-    [] name = "C06_OrderEscrow"          -> V(TRUE, C06_OrderEscrow(s))
-    [] name = "C06_MarketEscrow"         -> V(TRUE, C06_MarketEscrow(s))
-    [] name = "C06_NodeEscrow"           -> V(s.inexact = <<>>, C06_NodeEscrow(s))
-    [] name = "C06_DidEscrow"            -> V(TRUE, C06_DidEscrow(s))
-    [] name = "C06_EntitledNeverFails"   -> V(C06_EntitledNeverFails_app(x), C06_EntitledNeverFails(x))
-    [] name = "C07_UsedWithinCap"        -> V(TRUE, C07_UsedWithinCap(s))
-    [] name = "C07_ProviderEscrowClosed" -> V(Closure_app(x), C07_ProviderEscrowClosed(x))
-    [] name = "C07_PledgeBackToPledger"  -> V(Closure_app(x), C07_PledgeBackToPledger(x))
-    [] name = "C08_MintedEqualsCounter"  -> V(TRUE, C08_MintedEqualsCounter(s, g))
-    [] name = "C08_ClaimsWithinMinted"   -> V(s.inexact = <<>>, C08_ClaimsWithinMinted(s, g))
-    [] name = "C08_MintOnlyInBlocks"     -> V(IsTx(x), C08_MintOnlyInBlocks(x))
-    [] name = "C08_MintBound"            -> V(C08_MintBound_app(x), C08_MintBound(x, g.cfg))
-    [] name = "C08_ClaimExact"           -> V(C08_ClaimExact_app(x), C08_ClaimExact(x))
-    [] name = "C09_ModelChangeAuthorised"-> V(C09_app(x), C09_ModelChangeAuthorised(x))
-    [] name = "C10_CompleteByAssignee"   -> V(C10_CompleteByAssignee_app(x), C10_CompleteByAssignee(x))
-    [] name = "C10_NodeSelfOnly"         -> V(C10_NodeSelfOnly_app(x), C10_NodeSelfOnly(x))
-    [] name = "C10_CancelByCreator"      -> V(C05_app(x), C10_CancelByCreator(x))
-    [] name = "C10_PayerConsent"         -> V(C04_ChargeExact_app(x), C10_PayerConsent(x))
-    [] name = "C11_KeptWhilePaid"        -> V(TRUE, C11_KeptWhilePaid(x))
-    [] name = "C11_ReleasedAtEnd"        -> V(C11_ReleasedAtEnd_app(x), C11_ReleasedAtEnd(x))
-    [] name = "C11_ModelOutlivesShards"  -> V(TRUE, C11_ModelOutlivesShards(s))
-    [] name = "C11_NothingOverdue"       -> V(TRUE, C11_NothingOverdue(s))
-    [] name = "C12_Rescheduled"          -> V(TRUE, C12_Rescheduled(s))
-    [] name = "C12_StoredOrderUntouched" -> V(Kind(x) = "Blocks", C12_StoredOrderUntouched(x))
-    [] name = "C12_ResolvedByBound"      -> V(TRUE, C12_ResolvedByBound(s))
-    [] name = "C13_OrderShardsExist"     -> V(TRUE, C13_OrderShardsExist(s))
-    [] name = "C13_ShardListedByItsOrder"-> V(TRUE, C13_ShardListedByItsOrder(s))
-    [] name = "C13_CompletedShardScheduled" -> V(TRUE, C13_CompletedShardScheduled(s))
-    [] name = "C13_AliasBijection"       -> V(TRUE, C13_AliasBijection(s))
-    [] name = "C14_UsedIsSum"            -> V(TRUE, C14_UsedIsSum(s))
-    [] name = "C14_WorkerIsSum"          -> V(TRUE, C14_WorkerIsSum(s))
-    [] name = "C14_ShardPledgedIsSum"    -> V(TRUE, C14_ShardPledgedIsSum(s))
-    [] name = "C14_PoolIsSum"            -> V(TRUE, C14_PoolIsSum(s))
-    [] name = "C15_Placement"            -> V(C15_app(x), C15_Placement(x))
-    [] name = "C16_IdsFresh"             -> V(TRUE, C16_IdsFresh(x))
-    [] name = "C16_OneInFlight"          -> V(C16_Update_app(x), C16_OneInFlight(x))
-    [] name = "C16_BaseIsLatest"         -> V(C16_Update_app(x), C16_BaseIsLatest(x))
-    [] name = "C16_HistoryChain"         -> V(TRUE, C16_HistoryChain(x))
 
 \* ---------------------------------------------------------------------------
 \* Conformance: the observed step is the step the specification's transition function takes.
